@@ -74,7 +74,8 @@ func (q *queue) len() uint64 {
 func (q *queue) push(ctx context.Context) (EvictFunc, <-chan core.Listener) {
 	q.mu.Lock()
 	defer q.mu.Unlock()
-	releaseChan := make(chan core.Listener)
+	// buffered so that a hand-off made before the waiter reaches its select is not lost
+	releaseChan := make(chan core.Listener, 1)
 
 	e := &queueElement{ctx: ctx, releaseChan: releaseChan}
 
@@ -270,14 +271,20 @@ func NewQueueBlockingLimiterWithDefaults(
 }
 
 func (l *QueueBlockingLimiter) tryAcquire(ctx context.Context) core.Listener {
+	// The attempt, the backlog bound and the enqueue are a single step with respect to unblock(),
+	// otherwise a release in between would find nobody to hand its token to.
+	l.mu.Lock()
+
 	// Try to acquire a token and return immediately if successful
 	listener, ok := l.delegate.Acquire(ctx)
 	if ok && listener != nil {
+		l.mu.Unlock()
 		return listener
 	}
 
 	// Restrict backlog size so the queue doesn't grow unbounded during an outage
 	if l.backlog.len() >= l.maxBacklogSize {
+		l.mu.Unlock()
 		return nil
 	}
 
@@ -286,6 +293,7 @@ func (l *QueueBlockingLimiter) tryAcquire(ctx context.Context) core.Listener {
 	// ordering was configured when backlog was instantiated
 	verifPoint("queue.beforePush")
 	evict, eventReleaseChan := l.backlog.push(ctx)
+	l.mu.Unlock()
 
 	// We're using a nil chan so that we
 	// can avoid needing to duplicate the
@@ -316,14 +324,26 @@ func (l *QueueBlockingLimiter) tryAcquire(ctx context.Context) core.Listener {
 	case <-backlogTimeout:
 		verifPoint("queue.giveup")
 		// Remove the holder from the backlog.
-		evict()
-		return nil
+		return l.giveUp(evict, eventReleaseChan)
 	case <-ctxDone:
 		verifPoint("queue.giveup")
 		// The context has been cancelled before `maxBacklogTimeout`
 		// could elapse. Since this context no longer needs a listener
 		// we evict it from the backlog to free up space.
-		evict()
+		return l.giveUp(evict, eventReleaseChan)
+	}
+}
+
+// giveUp removes a waiter from the backlog.  If unblock() handed it a listener in the meantime that
+// listener is returned to the caller instead of being lost.
+func (l *QueueBlockingLimiter) giveUp(evict EvictFunc, releaseChan <-chan core.Listener) core.Listener {
+	l.mu.Lock()
+	defer l.mu.Unlock()
+	evict()
+	select {
+	case listener := <-releaseChan:
+		return listener
+	default:
 		return nil
 	}
 }
